@@ -1317,9 +1317,10 @@ static void cacheCase(pbt::Src &src, pbt::Case &c, const std::vector<pbt::Row> &
   std::int64_t offset = 0;
   bool crossed = false;
   std::size_t lastGroup = 0;
+  std::set<CKey> displaced; // keys whose live entry was followed by a TTL-0 answer
   pbt::Fmt hist;
   hist << "default=" << (defCfg < 0 ? std::string("ctor()") : std::to_string(defCfg) + "s") << ":";
-  int gets = 0, hitsFresh = 0, missFresh = 0, missExpired = 0, hitsVariant = 0;
+  int gets = 0, hitsFresh = 0, missFresh = 0, missFreshOther = 0, missDisplaced = 0, missExpired = 0, hitsVariant = 0;
   const bool ttl0Known = pbt::isKnown(SIG_TTL0);
 
   // `follow`: (get / remove) aim at the question of an earlier put - under another spelling, and now
@@ -1385,7 +1386,8 @@ static void cacheCase(pbt::Src &src, pbt::Case &c, const std::vector<pbt::Row> &
       }
       p.tAfter = hclock::now();
       puts.push_back(p);
-      if (p.ttl > 0) latest[key] = tag; // a do-not-cache answer need not displace the older entry
+      if (p.ttl > 0) latest[key] = tag, displaced.erase(key);
+      else displaced.insert(key); // a do-not-cache answer may, but need not, displace the older entry
       hist << " put#" << tag << "(" << text << "/" << key.type << "/" << key.cls << " ttls=[" << rec.str() << "] min=" << minTtl << ")";
       c.label(nrec == 0 ? "put without records (default TTL)" : minTtl == 0 ? "put with min TTL 0" : nrec > 1 ? "put with several TTLs" : "put with one record");
     }
@@ -1437,7 +1439,8 @@ static void cacheCase(pbt::Src &src, pbt::Case &c, const std::vector<pbt::Row> &
       }
       p.tAfter = hclock::now();
       puts.push_back(p);
-      if (p.ttl > 0) latest[key] = tag; // a do-not-cache answer need not displace the older entry
+      if (p.ttl > 0) latest[key] = tag, displaced.erase(key);
+      else displaced.insert(key); // a do-not-cache answer may, but need not, displace the older entry
       hist << " neg#" << tag << "(" << text << "/" << key.type << "/" << key.cls << " " << p.how << ")";
       c.label(mode == 0 ? "negative put, explicit TTL" : mode == 3 ? "negative put, no SOA (default TTL)" : "negative put, SOA-derived TTL");
       if (p.ttl == 0) c.label("negative put with TTL 0");
@@ -1463,7 +1466,13 @@ static void cacheCase(pbt::Src &src, pbt::Case &c, const std::vector<pbt::Row> &
       if (liveExpiredForSure) crossed = true;
       if (!hit)
       {
-        if (liveFreshForSure) ++missFresh; // e.g. TTL 0xFFFFFFFF doubles as iora's "no records" sentinel -> default TTL
+        if (liveFreshForSure)
+        {
+          // TTL 0xFFFFFFFF doubles as iora's "no records" sentinel -> default TTL (shorter life, allowed)
+          if (live->ttl == 0xFFFFFFFFull) ++missFresh;
+          else if (displaced.count(key)) ++missDisplaced;
+          else ++missFreshOther;
+        }
         else if (live) ++missExpired;
         continue;
       }
@@ -1507,6 +1516,7 @@ static void cacheCase(pbt::Src &src, pbt::Case &c, const std::vector<pbt::Row> &
         cache->remove(q);
       }
       latest.erase(key);
+      displaced.erase(key);
       hist << " remove(" << text << "/" << key.type << "/" << key.cls << ")";
     }
     else if (kind < 83) // -------------------------------------------------------- clear
@@ -1517,6 +1527,7 @@ static void cacheCase(pbt::Src &src, pbt::Case &c, const std::vector<pbt::Row> &
         else cache->clear(true);
       }
       latest.clear();
+      displaced.clear();
       hist << " clear";
       c.label("clear");
     }
@@ -1556,7 +1567,9 @@ static void cacheCase(pbt::Src &src, pbt::Case &c, const std::vector<pbt::Row> &
   c.describe(hist);
   if (gets) c.label("history with get");
   if (hitsFresh) c.label("fresh hit observed");
-  if (missFresh) c.label("miss although the model entry was fresh (allowed)");
+  if (missFresh) c.label("miss although the model entry was fresh: TTL 2^32-1 read as 'no records' (allowed)");
+  if (missDisplaced) c.label("miss although the model entry was fresh: displaced by a later TTL-0 answer (allowed)");
+  if (missFreshOther) c.label("miss although the model entry was fresh: other (allowed)");
   if (missExpired) c.label("miss after expiry / boundary");
   if (hitsVariant) c.label("hit through another spelling of the name");
   if (crossed) c.nontrivial(pbt::hash64(hist.str()));
